@@ -1118,6 +1118,103 @@ func c15QueryInputs(fn *ssa.Function, key string, depth int) []map[ssa.Value]boo
 	return out
 }
 
+// c15DecodeTargetsFresh: every (*json.Decoder).Decode / json.Unmarshal target
+// reached from the page function pg (in pg or in helpers it calls, depth 2)
+// is rooted in an allocation made while handling this page: a local of pg or
+// of a helper below it; a parameter is followed to the callers — an
+// allocation in a caller is fresh only inside the loop that calls the page
+// function; captured variables, fields and globals outlive a page unless a
+// zeroing store to the target precedes the decode.
+func c15DecodeTargetsFresh(c *Ctx, pg *ssa.Function, drivers []c15Driver) (bool, string) {
+	isDecode := func(n string) bool { return n == "(*encoding/json.Decoder).Decode" || n == "encoding/json.Unmarshal" }
+	// the activations that handle one page: pg and its helpers
+	perPage := map[*ssa.Function]bool{pg: true}
+	var below func(f *ssa.Function, d int)
+	below = func(f *ssa.Function, d int) {
+		if d == 0 {
+			return
+		}
+		for _, ci := range Calls(f, func(string) bool { return true }) {
+			if h := StaticCallee(ci); h != nil && inModule(h) && len(h.Blocks) > 0 && !perPage[h] && !c15IsPageFn(h) {
+				perPage[h] = true
+				below(h, d-1)
+			}
+		}
+	}
+	below(pg, 2)
+	var fresh func(f *ssa.Function, v ssa.Value, at ssa.Instruction, depth int) (bool, string)
+	fresh = func(f *ssa.Function, v ssa.Value, at ssa.Instruction, depth int) (bool, string) {
+		for _, r := range Roots(v) {
+			r = strip(r)
+			// zeroed before use
+			zeroed := false
+			AllInstrs(f, func(in ssa.Instruction) {
+				if st, ok := in.(*ssa.Store); ok && (st.Addr == r || SameValue(st.Addr, r)) && at != nil && MustPass(at, newCut().Instr(st)) {
+					if _, isAlloc := r.(*ssa.Alloc); !isAlloc {
+						zeroed = true
+					}
+				}
+			})
+			if zeroed {
+				continue
+			}
+			switch u := r.(type) {
+			case *ssa.Alloc:
+				if perPage[f] {
+					continue
+				}
+				// an allocation in a caller: fresh only if made inside the loop around the page call
+				inLoop := false
+				for _, l := range Loops(f) {
+					if l.Contains(u) && at != nil && l.Contains(at) {
+						inLoop = true
+					}
+				}
+				if !inLoop {
+					return false, fmt.Sprintf("the decode target is a variable of %s that lives across pages (allocated at %s): members missing from a later page keep the previous page's items and slices handed to the callback are overwritten", FnName(f), c.P.Pos(u.Pos()))
+				}
+			case *ssa.Parameter:
+				if depth <= 0 {
+					return false, "the decode target is handed down through too many calls to be followed"
+				}
+				idx := -1
+				for i, q := range f.Params {
+					if q == u {
+						idx = i
+					}
+				}
+				callers := 0
+				for _, rel := range c15Pkgs {
+					for _, g := range c.P.FuncsOfPkg(rel) {
+						for _, call := range c13CallsToFn(g, f) {
+							callers++
+							if ok, why := fresh(g, call.Common().Args[idx], call.(ssa.Instruction), depth-1); !ok {
+								return false, why
+							}
+						}
+					}
+				}
+				if callers == 0 {
+					return false, "the decode target is a parameter for which no caller was found"
+				}
+			default:
+				return false, fmt.Sprintf("the decode target (%s) is a captured variable, field or global that outlives one page and is not reset before the decode", describe(r))
+			}
+		}
+		return true, ""
+	}
+	for f := range perPage {
+		for _, d := range Calls(f, isDecode) {
+			args := d.Common().Args
+			if ok, why := fresh(f, args[len(args)-1], d.(ssa.Instruction), 3); !ok {
+				return false, why
+			}
+		}
+	}
+	_ = drivers
+	return true, ""
+}
+
 // c15FeedsRequestURL: a value of vals is the URL of the request built by fn
 // (http.NewRequestWithContext), directly or in a helper fn hands it to.
 func c15FeedsRequestURL(fn *ssa.Function, vals map[ssa.Value]bool, depth int) bool {
@@ -1267,7 +1364,7 @@ func c15R2(c *Ctx) {
 		RK = "C15.R2.link-parser"
 	)
 	c.Expect(RL, 9) // per loop 4 (+ last-first-page-only); with one shared generic driver: 4 + per bound page fetcher 1 (+ last): 9 is the minimum
-	c.Expect(RP, 23)
+	c.Expect(RP, 26)
 	c.Expect(RK, 3)
 	links := c15LinkFns(c.P)
 	if len(links) != 1 {
@@ -1696,6 +1793,10 @@ func c15R2(c *Ctx) {
 		}
 		c.Check(RP, pn+"|end-of-listing-only-from-link-parser", pg.Pos(), okSent,
 			ifelse(okSent, "every return after the exchange whose error may be nil or errNoLink returns the link parser's own error result", whySent))
+		// the decode target of a page is fresh per page (encoding/json keeps members the document lacks and reuses the
+		// backing array of a slice: a target that outlives one page would re-deliver or overwrite earlier items)
+		okFresh, whyFresh := c15DecodeTargetsFresh(c, pg, drivers)
+		c.Check(RP, pn+"|decode-target-fresh", pg.Pos(), okFresh, ifelse(okFresh, "every JSON decode of this page writes into a variable allocated (or zeroed) within the handling of this page", whyFresh))
 		// the pagination parameters reach the request: on every path to the exchange the value was put into the
 		// query that is stored back, or is absent (last == "" / page size <= 0)
 		for _, qp := range []struct {
@@ -2521,6 +2622,10 @@ var c15Mutants = []Mutant{
 	{Name: "repositories-n-only-with-last", File: "registry/remote/registry.go",
 		Old:    "\tif r.RepositoryListPageSize > 0 || last != \"\" {",
 		New:    "\tif last != \"\" {",
+		Expect: "C15.R2.page-function"},
+	{Name: "tags-page-struct-shared", File: "registry/remote/repository.go",
+		Old: "\tvar page struct {\n\t\tTags []string `json:\"tags\"`\n\t}\n\tlr := limitReader(resp.Body, r.MaxMetadataBytes)\n\tif err := json.NewDecoder(lr).Decode(&page); err != nil {\n\t\treturn \"\", fmt.Errorf(\"%s %q: failed to decode response: %w\", resp.Request.Method, resp.Request.URL, err)\n\t}\n\tif err := fn(page.Tags); err != nil {\n\t\treturn \"\", err\n\t}\n\n\treturn parseLink(resp)\n}\n",
+		New: "\tpage := &sharedTagsPage\n\tlr := limitReader(resp.Body, r.MaxMetadataBytes)\n\tif err := json.NewDecoder(lr).Decode(page); err != nil {\n\t\treturn \"\", fmt.Errorf(\"%s %q: failed to decode response: %w\", resp.Request.Method, resp.Request.URL, err)\n\t}\n\tif err := fn(page.Tags); err != nil {\n\t\treturn \"\", err\n\t}\n\n\treturn parseLink(resp)\n}\n\n// sharedTagsPage is reused by every tag list request to save allocations.\nvar sharedTagsPage struct {\n\tTags []string `json:\"tags\"`\n}\n",
 		Expect: "C15.R2.page-function"},
 	{Name: "link-malformed-ends-listing", File: "registry/remote/utils.go",
 		Old:    "\tif link[0] != '<' {\n\t\treturn \"\", fmt.Errorf(\"invalid next link %q: missing '<'\", link)\n\t}",
